@@ -46,6 +46,15 @@ package polygon
 //@   property C23
 //@   mode abstract
 //@   modifies nothing
+//@   -- the proven storage value, left-padded with zeros to 32 bytes, is compared with the WHOLE Keccak-256 of the message
+//@   ghost var gpad int = 0
+//@   set before "s = append(s, tempBytes...)" : gpad := len(s)
+//@   loop 1 invariant len(s) == i - len(tempBytes) && i >= len(tempBytes) && (i <= 32 || i == len(tempBytes)) && (forall q int :: 0 <= q && q < len(s) ==> s[q] == 0)
+//@   callsite[c23-whole-hash] Keccak256#1 requires len(arg0) == 1 && arg0[0] == value
+//@   callsite[c23-cmp-hash] Equal#1 requires arg1 == hash
+//@   callsite[c23-cmp-len] Equal#1 requires len(arg0) == gpad + len(tempBytes)
+//@   callsite[c23-cmp-pad] Equal#1 requires len(tempBytes) < 32 ==> gpad == 32 - len(tempBytes)
+//@   callsite[c23-cmp-zero] Equal#1 requires forall q int :: 0 <= q && q < gpad ==> arg0[q] == 0
 
 // verifyFromTx of this router is not under contract for C23: it passes the address of a nested value field
 // (&headerWithSum.HeaderWithOptionalSnap.Header), which is outside the engine's memory model.
